@@ -2,6 +2,7 @@ package props
 
 import (
 	"go/ast"
+	"go/constant"
 	"go/token"
 	"go/types"
 	"regexp"
@@ -1189,6 +1190,59 @@ func ruleInStreamGuards(c *core.Ctx, rule string) {
 		name string
 		mode string // "refuse" or "defer"
 	}
+	// the stream stays "open" until its length has been set and its trailer
+	// written: an object that the length placeholder emits (the indirect
+	// /Length of a non-seekable output) must still be deferred, or it lands
+	// inside the stream data
+	c.Check(rule, "pdf.(*streamWriter).Close/inStream-cleared-late", "closing a stream clears the writer's inStream flag only after the length was set and the stream trailer written", func(o *core.Ob) {
+		fn := c.Prog.Func("pdf", "(*streamWriter).Close")
+		g := fn.Graph()
+		info := fn.Info()
+		n := 0
+		for _, v := range g.Vs {
+			as, ok := v.AST.(*ast.AssignStmt)
+			if !ok || len(as.Lhs) != len(as.Rhs) {
+				continue
+			}
+			for i, l := range as.Lhs {
+				if _, ok := core.FieldSel(info, l, "pdf", "Writer", "inStream"); !ok {
+					continue
+				}
+				if cv := core.ConstOf(info, as.Rhs[i]); cv == nil || cv.Kind() != constant.Bool || constant.BoolVal(cv) {
+					continue
+				}
+				n++
+				o.At(fn.Site(as, "stream no longer open"))
+				reach := g.ReachFrom(v, false, nil)
+				for w := range reach {
+					if w.AST == nil {
+						continue
+					}
+					for _, cs := range core.CallsIn(info, w.AST, false) {
+						if strings.HasSuffix(cs.Key, "(*Placeholder).Set") {
+							o.FailAt(fn.Site(cs.Call, ""), "the stream length is set after inStream was cleared at %s: an indirect /Length object is then written into the stream data instead of being deferred", c.Prog.Pos(as.Pos()))
+						}
+						if (strings.HasSuffix(cs.Key, ".Write") || strings.HasSuffix(cs.Key, "io.WriteString")) && len(cs.Call.Args) >= 1 {
+							for _, a := range cs.Call.Args {
+								str, isS := constBytes(info, a)
+								if !isS {
+									for _, vc := range valueCases(g, w, a, 2) {
+										if s2, ok := core.StringConst(info, vc.Expr); ok {
+											str, isS = s2, true
+										}
+									}
+								}
+								if isS && strings.Contains(str, "endstream") {
+									o.FailAt(fn.Site(cs.Call, ""), "the stream trailer is written after inStream was cleared at %s", c.Prog.Pos(as.Pos()))
+								}
+							}
+						}
+					}
+				}
+			}
+		}
+		o.Shape(n > 0, "no store that clears inStream found in streamWriter.Close")
+	})
 	for _, e := range []ent{{"(*Writer).Put", "defer"}, {"(*Writer).WriteCompressed", "refuse"}, {"(*Writer).OpenStream", "refuse"}, {"(*Writer).Close", "refuse"}} {
 		e := e
 		c.Check(rule, "pdf."+e.name+"/inStream", "no object may be interleaved with an open stream: the entry point tests inStream before anything else and refuses or defers", func(o *core.Ob) {
